@@ -197,6 +197,13 @@ impl LsmVerifier {
                 computed_discard += setsum;
                 ssts_to_remove.push(setsum);
             }
+            // A file that an edit adds (back) is in use again, whatever removed it before.  This is
+            // the order cleanup_orphans applies an edit in: removals, then additions.
+            for added in edit.added() {
+                if let Some(setsum) = Setsum::from_hexdigest(added) {
+                    ssts_to_remove.retain(|x| *x != setsum);
+                }
+            }
             if !first {
                 if let Some(log_num) = edit.get_info('L') {
                     let log_num: u64 = log_num.parse().map_err(|_| {
